@@ -209,6 +209,11 @@ opened("C20-m-attribute-namespace-in-pi-target", "C20",
        "refuse the target, and the record - with all later records of that file - is lost (needs a different notation, "
        "not a small repair)",
        witness="known/C20-m-attribute-namespace-in-pi-target.json")
+opened("C20-m-attribute-value-with-pi-end", "C20",
+       "-m prints an attribute node as the processing instruction <?attribute:URI:local value?>; a value that contains "
+       "'?>' cannot be written inside a processing instruction: the encoder refuses it, and the record - with all later "
+       "records of that file - is lost (same notation problem as C20-m-attribute-namespace-in-pi-target)",
+       witness="known/C20-m-attribute-value-with-pi-end.json")
 
 
 def main():
